@@ -28,8 +28,7 @@ def run(tier, seed, verdict):
             "detach_outcome_detached_done", "detach_outcome_natural", "stop_on_request_rounds",
             "canary_outcome_guard_alive", "canary_outcome_guard_dead", "canary_outcome_destructor_started_inside_guard"]
     missing = [k for k in need if not st.get(k)]
-    if missing:
-        raise core.HarnessFailure("cancel-race stress observed none of: %s" % missing)
+    core.require_observed(verdict, missing, "cancel-race stress")
     cov = {
         "evaluations": st.get("rounds_total", 0),
         "distinct_nontrivial": sum(1 for v in st.values() if v) + sum(1 for v in res.hooks.values() if v),
